@@ -2,7 +2,7 @@
 import z3
 from .. import replay as rp
 from ..engine import AND, OR, NOT
-from ..values import is_variant, payload
+from ..values import is_variant, payload, St, mk_variant
 
 RANK_BITS = 4
 
@@ -45,3 +45,71 @@ def built(native, prog):
         if st['op'] == 'range' and not rp.constructed(native, st['id'], st):
             return False, 'range %s = %r printed back as %r' % (st['id'], st['text'], (native.get(st['id']) or {}).get('print', native.get(st['id'])))
     return True, ''
+
+
+def constructor_group(s, L=1):
+    """BoundSet::new against an independent emptiness rule: the representation invariant quantifies over what the constructor
+    accepts, so the constructor itself must accept exactly the non-empty (lower, upper) pairs and keep them unchanged"""
+    from .. import oracles as O
+    h = s.harness(L=L, cap_bs=2)
+    lo, hi = h.predicate('lo'), h.predicate('hi')
+    B = h.B
+    from ..values import mk_variant
+    r = h.call(h.f_new, mk_variant(B, 'Lower', [lo]), mk_variant(B, 'Upper', [hi]))
+    lv, hv = h.pred_version(lo), h.pred_version(hi)
+    lt, eq = O.o_lt_eq(lv, hv)
+    valid = OR(lo.tag == 2, hi.tag == 2, lt, AND(eq, lo.tag == 1, hi.tag == 1))
+    bs = payload(r, 'Some')[0]
+    same = AND(h.lower_pred(bs).tag == lo.tag, h.upper_pred(bs).tag == hi.tag,
+               z3.Implies(lo.tag != 2, O.o_lt_eq(h.pred_version(h.lower_pred(bs)), lv)[1]), z3.Implies(hi.tag != 2, O.o_lt_eq(h.pred_version(h.upper_pred(bs)), hv)[1]))
+
+    def dec(m):
+        return {'A': [{'lo': h.dec_pred(m, lo), 'hi': h.dec_pred(m, hi)}], 'B': None, 'v': h.dec_version(m, lv)}
+
+    def replay(case):
+        names = rp.tok_names(case)
+        b = case['A'][0]
+        parts = []
+        if b['lo']['k'] != 'U':
+            parts.append(('>=' if b['lo']['k'] == 'I' else '>') + rp.version_text(b['lo']['v'], names))
+        if b['hi']['k'] != 'U':
+            parts.append(('<=' if b['hi']['k'] == 'I' else '<') + rp.version_text(b['hi']['v'], names))
+        text = ' '.join(parts) or '*'
+        prog = [{'id': 'R', 'op': 'range', 'text': text}]
+
+        def judge(native):
+            from ..oracles import py_cmp, raw_version
+            from ..oracles import py_within
+            ok = (native.get('R') or {}).get('ok')
+            if b['lo']['k'] == 'U' or b['hi']['k'] == 'U':
+                valid_n = True
+            else:
+                c = py_cmp(raw_version(b['lo']['v'], names), raw_version(b['hi']['v'], names))
+                valid_n = c < 0 or (c == 0 and b['lo']['k'] == 'I' and b['hi']['k'] == 'I')
+            raw_b = {k: ({'k': 'U'} if b[k]['k'] == 'U' else {'k': b[k]['k'], 'v': raw_version(b[k]['v'], names)}) for k in ('lo', 'hi')}
+            inside = py_within(raw_b, raw_version(case['v'], names))
+            bad = (not ok and inside) or (ok and not valid_n)
+            return ('confirmed' if bad else 'mismatch'), 'range %r: parsed=%s (%s); version %s lies within the pair: %s' % (
+                text, ok, (native.get('R') or {}).get('print', (native.get('R') or {}).get('kind')), rp.version_text(case['v'], names), inside)
+        return prog, judge
+    s.cover(h, 'adjacent bounds with a tagged upper bound are accepted', [is_variant(r, 'Some'), lo.tag == 0, hi.tag == 0, h.is_pre(hv), NOT(h.is_pre(lv))])
+    v = h.version('v')
+    given = St(h.BS, [mk_variant(B, 'Upper', [hi]), mk_variant(B, 'Lower', [lo])])
+    s.prove(h, 'BoundSet::new rejects a (lower, upper) pair only if no version lies within it', [is_variant(r, 'None')], NOT(O.o_within(h, given, v)),
+            decode=lambda m: dict(dec(m), v=h.dec_version(m, v)), replay=replay)
+    s.prove(h, 'BoundSet::new accepts only pairs whose lower cut lies before the upper cut', [is_variant(r, 'Some')], valid, decode=dec, replay=replay)
+    s.prove(h, 'BoundSet::new keeps the bounds it was given', [is_variant(r, 'Some')], same, decode=dec, replay=replay)
+
+
+def premise_c04_group(s, L=2):
+    """rank and hybrid modes answer Version::cmp / == by a ghost rank; that is sound exactly when [[Version::cmp]] is the SemVer
+    order and == coincides with Equal, which is discharged here on the concrete encoding of the same tree"""
+    from . import c04
+    n0 = len(s.results)
+    c04.order_group(s, L)
+    for r in s.results[n0:]:
+        r['ob'] = 'premise of the order abstraction (C04): ' + r['ob']
+
+
+def premise_group(tier):
+    return {'name': 'premise-C04', 'fn': premise_c04_group, 'args': {'L': 2 if tier == 'quick' else 3}}
